@@ -21,6 +21,8 @@ pub struct Summary {
   pub model_requests: u64,
   pub notes: Vec<String>,
   pub exhaustive: bool,
+  /// distinct non-trivial cases counted by child processes (isolated execution)
+  pub nontrivial_children: u64,
 }
 
 pub fn fnv(s: &str) -> u64 {
@@ -93,11 +95,52 @@ impl Summary {
     self.traces_validated += o.traces_validated;
     self.model_requests += o.model_requests;
     self.notes.extend(o.notes);
+    self.nontrivial_children += o.nontrivial_children;
+  }
+  /// fold in the JSON summary written by a child process that ran some of the cases
+  pub fn absorb_json(&mut self, j: &Value) {
+    self.cases += j["cases"].as_u64().unwrap_or(0);
+    self.nontrivial_children += j["distinct_nontrivial"].as_u64().unwrap_or(0);
+    if let Some(d) = j["distribution"].as_object() {
+      for (k, v) in d {
+        *self.dist.entry(k.clone()).or_insert(0) += v.as_u64().unwrap_or(0);
+      }
+    }
+    for x in j["samples"].as_array().cloned().unwrap_or_default() {
+      if self.samples.len() < 3 {
+        self.samples.push(x);
+      }
+    }
+    self.n_disagreements += j["n_disagreements"].as_u64().unwrap_or(0);
+    for d in j["disagreements"].as_array().cloned().unwrap_or_default() {
+      if self.disagreements.len() < KEEP {
+        self.disagreements.push(d);
+      }
+    }
+    self.n_failures += j["n_failures"].as_u64().unwrap_or(0);
+    if let Some(d) = j["failure_sigs"].as_object() {
+      for (k, v) in d {
+        *self.failure_sigs.entry(k.clone()).or_insert(0) += v.as_u64().unwrap_or(0);
+      }
+    }
+    for f in j["failures"].as_array().cloned().unwrap_or_default() {
+      let kept = self.failures.iter().filter(|g| g["sig"] == f["sig"]).count();
+      if kept < 3 && self.failures.len() < 4 * KEEP {
+        self.failures.push(f);
+      }
+    }
+    self.traces_validated += j["traces_validated_against_impl"].as_u64().unwrap_or(0);
+    self.model_requests += j["model_requests"].as_u64().unwrap_or(0);
+    for n in j["notes"].as_array().cloned().unwrap_or_default() {
+      if let Some(t) = n.as_str() {
+        self.notes.push(t.to_string());
+      }
+    }
   }
   pub fn to_json(&self, property: &str, rule: &str, tier: &str, seed: u64) -> Value {
     json!({
       "property": property, "tier": tier, "seed": seed,
-      "cases": self.cases, "distinct_nontrivial": self.nontrivial.len(), "rule": rule,
+      "cases": self.cases, "distinct_nontrivial": self.nontrivial.len() as u64 + self.nontrivial_children, "rule": rule,
       "distribution": self.dist, "samples": self.samples,
       "disagreements": self.disagreements, "n_disagreements": self.n_disagreements,
       "failures": self.failures, "n_failures": self.n_failures, "failure_sigs": self.failure_sigs,
